@@ -424,7 +424,9 @@ V_HARNESS(h_idl_a_repeat)
   if (a_del) V_ASSERT(st[0] == 0 || st[1] == 0, "idl_repeat_needs_clean_copy");
   exp_n = 0;
   if (a_del) expect_delivery(A.user, nA, A.dep ? VBI_IDL_DEPENDENT : 0);
-  if (b_del) expect_delivery(B.user, nB, (a_del ? 0 : VBI_IDL_DATA_LOST) | (B.dep ? VBI_IDL_DEPENDENT : 0));
+  /* A's loss is visible to a receiver that starts with A only through a failed check word (no CI to compare with yet);
+     a damaged last repeat is flagged by this demux even if A was delivered from its first copy (conservative: accepted) */
+  if (b_del) expect_delivery(B.user, nB, ((st[1] == 1 || (!a_del && st[0] == 1)) ? VBI_IDL_DATA_LOST : 0) | (B.dep ? VBI_IDL_DEPENDENT : 0));
   compare_log();						/* the first byte tells the packets apart */
   if (st[0] == 1 && st[1] == 0 && cb_n == 2) V_REACH("recovered");
   if (!a_del && b_del) V_REACH("lost");
